@@ -2,6 +2,8 @@ package c20
 
 import (
 	"bytes"
+	"crypto/sha512"
+	"encoding/hex"
 	"fmt"
 	"sort"
 	"testing"
@@ -9,6 +11,7 @@ import (
 	"github.com/folbricht/desync"
 
 	"verifharness/internal/gen"
+	"verifharness/internal/hx"
 )
 
 func selfFail(t *testing.T, format string, a ...any) {
@@ -189,7 +192,9 @@ func TestSelf(t *testing.T) {
 		selfFail(t, "desync.Compress does not look like %s's output: the build tags did not select the expected implementation (build %s)", same.Name(), buildName)
 	}
 
-	// the run function flags broken layouts: feed the walker-side signatures through a fake file
+	selfJudge(t)
+	selfProv(t)
+
 	if c := content(Case{Fill: "text", Len: 10, Seed: 1}); len(c) != 10 {
 		selfFail(t, "content length %d, want 10", len(c))
 	}
@@ -199,5 +204,115 @@ func TestSelf(t *testing.T) {
 				selfFail(t, "content(%s,%d) has %d bytes", fill, l, got)
 			}
 		}
+	}
+}
+
+// selfJudge feeds the layout oracle with hand-made before/after pictures of a store directory:
+// the two correct ones, and the ways a StoreChunk can get the layout wrong (among them what a
+// pass-through of a foreign storage representation produces: a zstd frame in the suffix-less
+// file, raw bytes in the .cacnk file).
+func selfJudge(t *testing.T) {
+	data := textBytes(5000, 11)
+	sum := sha512.Sum512_256(data)
+	sid := hex.EncodeToString(sum[:])
+	frame := same.Compress(data)
+	raw, cacnk := sid[:4]+"/"+sid, sid[:4]+"/"+sid+".cacnk"
+	pic := func(dir string, files map[string][]byte) snap {
+		s := snap{files: files}
+		if dir != "" {
+			s.dirs = []string{dir}
+		}
+		return s
+	}
+	tests := []struct {
+		name          string
+		unc           bool
+		before, after snap
+		want          []string
+		ok, frame     bool
+	}{
+		{"raw file", true, pic("", nil), pic(sid[:4], map[string][]byte{raw: data}), nil, true, false},
+		{"one frame", false, pic("", nil), pic(sid[:4], map[string][]byte{cacnk: frame}), nil, true, true},
+		{"second format added", true, pic(sid[:4], map[string][]byte{cacnk: frame}), pic(sid[:4], map[string][]byte{cacnk: frame, raw: data}), nil, true, false},
+		{"zstd frame in the suffix-less file", true, pic("", nil), pic(sid[:4], map[string][]byte{raw: frame}), []string{"C20:layout:raw-bytes"}, true, false},
+		{"raw bytes in the .cacnk file", false, pic("", nil), pic(sid[:4], map[string][]byte{cacnk: data}), []string{"C20:layout:bad-frame:magic", "C20:decode:other-impl-fails"}, true, false},
+		{"two frames", false, pic(sid[:4], map[string][]byte{raw: data}), pic(sid[:4], map[string][]byte{raw: data, cacnk: append(append([]byte(nil), frame...), frame...)}), []string{"C20:layout:not-single-frame", "C20:decode:other-impl-differs"}, true, false}, // the libraries decode both frames
+		{"frame of other data", false, pic("", nil), pic(sid[:4], map[string][]byte{cacnk: same.Compress(data[1:])}), []string{"C20:layout:frame-content-size", "C20:decode:other-impl-differs"}, true, true},
+		{"swapped suffix", true, pic("", nil), pic(sid[:4], map[string][]byte{cacnk: data}), []string{"C20:layout:path"}, false, false},
+		{"two-digit directory", true, pic("", nil), pic(sid[:2], map[string][]byte{sid[:2] + "/" + sid: data}), []string{"C20:layout:path"}, false, false},
+		{"second directory", true, pic("", nil), snap{files: map[string][]byte{raw: data}, dirs: []string{sid[:4], "tmp"}}, []string{"C20:layout:dir"}, true, false},
+		{"temporary file left", true, pic("", nil), pic(sid[:4], map[string][]byte{raw: data, sid[:4] + "/.tmp-cacnk1": data}), []string{"C20:layout:file-count"}, true, false},
+		{"nothing stored", true, pic("", nil), pic("", map[string][]byte{}), []string{"C20:layout:file-count", "C20:layout:path"}, false, false},
+		{"other format rewritten", true, pic(sid[:4], map[string][]byte{cacnk: frame}), pic(sid[:4], map[string][]byte{cacnk: data, raw: data}), []string{"C20:coexist:file-modified"}, true, false},
+		{"other format removed", true, pic(sid[:4], map[string][]byte{cacnk: frame}), pic(sid[:4], map[string][]byte{raw: data}), []string{"C20:coexist:store-removed-other-format"}, true, false},
+	}
+	for _, tc := range tests {
+		var o hx.Outcome
+		m := newModel("self-test", sid, desync.ChunkID(sum), data)
+		if tc.before.files == nil {
+			tc.before.files = map[string][]byte{}
+		}
+		ok, fi, _ := judgeStore(&o, m, tc.before, tc.after, tc.unc, data, "text", "self-test")
+		var got []string
+		for _, v := range o.Violations {
+			got = append(got, v.Sig)
+		}
+		want := append([]string(nil), tc.want...)
+		sort.Strings(got)
+		sort.Strings(want)
+		if fmt.Sprint(got) != fmt.Sprint(want) {
+			selfFail(t, "layout oracle on %q: signatures %v, want %v", tc.name, got, want)
+		}
+		if ok != tc.ok || (fi != nil) != tc.frame {
+			selfFail(t, "layout oracle on %q: ok=%v frame=%v, want ok=%v frame=%v", tc.name, ok, fi != nil, tc.ok, tc.frame)
+		}
+		if ok && m.state[tc.unc] != valid {
+			selfFail(t, "layout oracle on %q: the model does not know the stored file", tc.name)
+		}
+	}
+}
+
+// selfProv: the provenance grid is what the rule says, labels are stable under norm, and every
+// required class can be produced (otherwise the driver could never be satisfied).
+func selfProv(t *testing.T) {
+	grid := provGrid()
+	// plain 2, withid 4, local/cache/copy 16 each, http 64, put 8
+	if len(grid) != 2+4+3*16+64+8 {
+		selfFail(t, "provenance grid has %d entries", len(grid))
+	}
+	keys := map[string]bool{}
+	classes := map[string]bool{}
+	lazyOpp := 0
+	for _, p := range grid {
+		if p.norm() != p {
+			selfFail(t, "norm is not idempotent on %+v", p)
+		}
+		if keys[p.key()] {
+			selfFail(t, "two grid entries share the key %s", p.key())
+		}
+		keys[p.key()] = true
+		for _, unc := range []bool{false, true} {
+			for _, c := range p.classes(unc) {
+				classes[c] = true
+			}
+		}
+		if p.lazy() && p.rel() == "opposite" {
+			lazyOpp++
+		}
+	}
+	if lazyOpp == 0 {
+		selfFail(t, "no grid entry is a storage-only chunk of the opposite format")
+	}
+	for _, r := range provRequired() {
+		if !classes[r] {
+			selfFail(t, "required class %q cannot be produced by any provenance", r)
+		}
+	}
+	if (ProvSpec{}).norm().label() != "prov:plain-lazy" {
+		selfFail(t, "the zero provenance (old replay files) is %s, want prov:plain-lazy", (ProvSpec{}).norm().label())
+	}
+	weird := ProvSpec{Kind: "nonsense", Src: "x", Wire: "y", SkipVerify: true, SrvSkipVerify: true, Touch: true, Frame: "z"}.norm()
+	if weird != (ProvSpec{Kind: "plain", Touch: true}) {
+		selfFail(t, "norm of a nonsense spec: %+v", weird)
 	}
 }
